@@ -228,6 +228,8 @@ def generate(ex: Executor, c: FnContract, mod, fnode):
         ctx0 = CallCtx(ex, amap, entry, st)
         if c.requires is not None:
             st.assume(ex._b(c.requires(ctx0)))
+        if c.hyps is not None:
+            st.assume(ex._b(c.hyps(ctx0)))
         if not ex.feasible(st.pc):
             continue
         ex.witness_terms = getattr(ex, "witness_terms", {})
